@@ -54,6 +54,7 @@ func (_this *Reader) Init(config *configuration.Configuration) {
 
 func (_this *Reader) SetReader(reader io.Reader) {
 	_this.reader = &strictReader{reader: reader}
+	_this.bytesRead = 0
 }
 
 // strictReader adapts any io.Reader to what the read functions below (and
